@@ -77,6 +77,12 @@ func init() {
 					}
 					lens = keep
 				}
+				// lengths added by hand after a thorough-tier finding
+				for _, n := range map[string][]int{"sgpd": {33}}[t] { // two roll entries with explicit lengths (fix 97c97d2)
+					if n <= -nmax {
+						lens = append(lens, n)
+					}
+				}
 			} else {
 				for n := 0; n <= nmax; n++ {
 					lens = append(lens, n)
@@ -529,7 +535,7 @@ func init() {
 			optsList := []int{0, 5, 11}
 			if tier == "thorough" {
 				layouts = append(layouts, "2x1", "1x2,1x1", "3x2", "2x2,1x1,1x2", "1x3,2x1,1x2", "2x3,1x2")
-				optsList = []int{0, 1, 3, 4, 5, 7, 8, 9, 11, 12, 13, 15}
+				optsList = []int{0, 1, 5, 7, 11, 13}
 			}
 			for _, lay := range layouts {
 				for ns := 1; ns <= tierN(tier, 2, 3); ns++ {
@@ -542,7 +548,7 @@ func init() {
 							if v&2 == 2 {
 								uni = "true"
 							}
-							if tier != "thorough" && v != 0 && v != 3 {
+							if (tier != "thorough" || ns == 3) && v != 0 && v != 3 {
 								continue
 							}
 							for oi, o := range optsList {
@@ -558,7 +564,7 @@ func init() {
 				}
 			}
 			for _, c := range r {
-				c.MaxWallS = tierW(tier, 60, 900)
+				c.MaxWallS = tierW(tier, 60, 120)
 			}
 			return r
 		},
@@ -1069,7 +1075,7 @@ func init() {
 			r = append(r, c)
 		}
 		for _, c := range r {
-			c.MaxWallS = tierW(tier, 60, 600)
+			c.MaxWallS = tierW(tier, 60, 120)
 			c.IfConvFuncs = map[string]bool{"(*" + mod + "/bits.EBSPReader).Read": true}
 		}
 		return r
@@ -1130,7 +1136,7 @@ func init() {
 				}
 			}
 			for _, c := range r {
-				c.MaxWallS = tierW(tier, 90, 900)
+				c.MaxWallS = tierW(tier, 90, 120)
 				c.IfConvFuncs = map[string]bool{"(*" + mod + "/bits.EBSPReader).Read": true, mod + "/avc.ParseSliceHeader": true}
 			}
 			// extended AVC syntax: scaling matrices, full VUI with HRD
@@ -1176,7 +1182,7 @@ func init() {
 			}
 			for _, c := range r {
 				if c.MaxWallS == 0 {
-					c.MaxWallS = tierW(tier, 90, 900)
+					c.MaxWallS = tierW(tier, 90, 120)
 					c.IfConvFuncs = map[string]bool{"(*" + mod + "/bits.EBSPReader).Read": true}
 				}
 			}
